@@ -57,6 +57,9 @@ def gen_cases(ctx):
             unsorted_names = ["unit", "radius", "Zeta", "alpha", "_x"][:n]
             params = [f"{k}={NAMED_VALS[(i + n) % len(NAMED_VALS)]}" for i, k in enumerate(unsorted_names)]
             cases.append(("named", nm, tuple(params), nm + "(" + ", ".join(params) + ")"))
+        # a parameter name REPEATED in one call (first = last, adjacent, three times): every written argument counts and stays where it was written
+        for params in (("s=1", "s=2"), ("p=1", "q='v'", "p=a"), ("a=1", "a=2", "a=3"), ("x=1", "y=2", "y=3", "x=4")):
+            cases.append(("named", nm, tuple(params), nm + "(" + ", ".join(params) + ")"))
         # single-argument call spelled as a one-element list: f(x,)
         cases.append(("pos", nm, ("1",), nm + "(1,)"))
         # every argument kind as the only argument (a parenthesised list is ONE argument)
